@@ -100,7 +100,7 @@ def validate(ctx, traces, tag):
             feats["src"] = e.get("src")
         if v["clause"].startswith("to_junction_tree") or e["ev"].startswith("bp"):
             feats["src"] = e.get("src")
-        new = ctx.violation({"api": e["ev"], "clause": v["clause"].split(".", 1)[1] if "." in v["clause"] else v["clause"], "features": feats,
+        new = ctx.violation({"api": e.get("api", e["ev"]) if e["ev"] == "raised" else e["ev"], "clause": v["clause"].split(".", 1)[1] if "." in v["clause"] else v["clause"], "features": feats,
                        "case": {"kind": "trace", "inst": t["inst"], "seed": t["seed"], "hashseed": t["hashseed"], "mode": t["mode"], "tid": tid},
                        "observed": {k: e[k] for k in e if k not in ("pots", "beta", "mu", "factors", "beliefs", "sepsets")}, "expected": v})
         if not new and v["l"] == len(t["events"]):
